@@ -364,6 +364,14 @@ def relocator_data_grid(mask, sub_size, pixel_scales, origin, grid, grid2, mesh_
         return None
     aa, rel = _relocator(mask, sub_size, pixel_scales, origin, sub_as_int)
     for label, g in (("first grid", grid), ("second grid", grid2)):
+        if label == "second grid" and int(mask.sum()) % 2 == 0:
+            # a call that does not fit the relocator in between (one coordinate per PIXEL where it has sub-pixels: an error, or a result
+            # nobody looks at) -- it must not change what the relocator does for the proper grid afterwards
+            try:
+                rel.relocated_grid_from(grid=aa.Grid2DIrregular(values=g[: int((~mask).sum())].copy()))
+            except Exception:
+                pass
+            label = "second grid (after a call with one coordinate per pixel)"
         arg = aa.Grid2DIrregular(values=g.copy())
         out = rel.relocated_grid_from(grid=arg)
         if not np.array_equal(np.asarray(arg), g):
